@@ -340,6 +340,17 @@ do_op(const char * op, long long a, long long b, int dir)
 		regs[a].kind = K_TM;
 		regs[a].cookie = c;
 		out("rt:%lld:%lld:ok", a, b);
+	} else if (strcmp(op, "rtd") == 0) {
+		/* whole seconds through the double-precision wrapper (exact below 2^53); traced like `rt` with its microseconds */
+		if (a < 0 || a >= MAXID || regs[a].kind != K_DEAD || b < 0) {
+			out("rt:%lld:%llu:skip", a, (unsigned long long)b * 1000000ULL);
+			return;
+		}
+		if ((c = events_timer_register_double(callback, &regs[a], (double)b)) == NULL)
+			abort();
+		regs[a].kind = K_TM;
+		regs[a].cookie = c;
+		out("rt:%lld:%llu:ok", a, (unsigned long long)b * 1000000ULL);
 	} else if (strcmp(op, "ct") == 0) {
 		if (a < 0 || a >= MAXID || regs[a].kind != K_TM) {
 			out("ct:%lld:skip", a);
@@ -643,6 +654,8 @@ main(void)
 			do_op("cn", atoll(hc_tok[1]), 0, hc_tok[2][0] == 'w');
 		else if (hc_is("reg_tm", 2))
 			do_op("rt", atoll(hc_tok[1]), atoll(hc_tok[2]), 0);
+		else if (hc_is("reg_tmd", 2))
+			do_op("rtd", atoll(hc_tok[1]), atoll(hc_tok[2]), 0);
 		else if (hc_is("cancel_tm", 1))
 			do_op("ct", atoll(hc_tok[1]), 0, 0);
 		else if (hc_is("reset_tm", 1))
